@@ -33,7 +33,7 @@ def _imports():
     import halmos.solve as solve_mod
 
 
-REC = {"queries": {}, "refined": {}, "dumps": [], "lock": threading.Lock(), "on": False}
+REC = {"queries": {}, "refined": {}, "dumps": [], "lock": threading.Lock(), "on": False, "parents": {}, "pollution": []}
 _installed = False
 
 
@@ -71,6 +71,22 @@ def install_monitors():
                 REC["dumps"].append(dict(query=path_ctx.query, refined=path_ctx.is_refined, text=text, file=str(path_ctx.dump_file), cache=bool(path_ctx.args.cache_solver)))
         return r
 
+    orig_extend = sevm_mod.Path.extend_path
+
+    def extend_path(self, path):
+        # the path of a start state (post-setUp state, frontier state) is finished: whatever transactions are started from it, its own
+        # conditions never change.  Snapshot at first use, compare at every later use (the parent object is kept alive, so ids are stable).
+        if REC["on"]:
+            snap = tuple(c.get_id() for c in path.conditions)
+            with REC["lock"]:
+                old = REC["parents"].get(id(path))
+                if old is None:
+                    REC["parents"][id(path)] = (path, snap)
+                elif old[1] != snap:
+                    REC["pollution"].append(dict(before=len(old[1]), after=len(snap), added=[str(c)[:160] for c in list(path.conditions)[len(old[1]):][:3]]))
+        return orig_extend(self, path)
+
+    sevm_mod.Path.extend_path = extend_path
     sevm_mod.Path.to_smt2 = to_smt2
     solve_mod.refine = refine
     solve_mod.dump = dump
@@ -192,9 +208,24 @@ def case(seed, idx, res):
     REC["queries"].clear()
     REC["refined"].clear()
     del REC["dumps"][:]
+    REC["parents"].clear()
+    del REC["pollution"][:]
     REC["on"] = True
+    stale_dir = None
     try:
-        out, d = e2e.run_contract_case(rng, spec, setup, tests, overrides=ov, dump=True)
+        if rng.random() < 0.25:
+            # the dump directory is not empty: an earlier run (another contract with the same test names, hence the same file names) left its
+            # query files there; every query of this run must still be the one that is solved
+            spec0, setup0, tests0 = testgen.gen_contract(random.Random(f"c11-stale-{seed}-{idx}"), 3, kinds=KINDS)
+            REC["on"] = False
+            out0, stale_dir = e2e.run_contract_case(rng, spec0, setup0, tests0, overrides=ov, dump=True)
+            REC["on"] = True
+            res["counters"]["runs_into_a_used_dump_directory"] += 1
+            ov2 = dict(ov, dump_smt_directory=stale_dir)
+            ctx_ = A.make_ctx(spec, funsigs=[t.fn.sig for t in tests], overrides=ov2)
+            out, d = A.run(ctx_), stale_dir
+        else:
+            out, d = e2e.run_contract_case(rng, spec, setup, tests, overrides=ov, dump=True)
     finally:
         REC["on"] = False
     try:
@@ -202,6 +233,10 @@ def case(seed, idx, res):
         if out.exception:
             res["counters"]["run_contract_failed"] += 1
             return
+        res["counters"]["start_states_watched"] += len(REC["parents"])
+        for pol in REC["pollution"][:1]:
+            res["violations"].append(dict(what="the path conditions of a start state changed between two transactions started from it (constraints of one test leak into the next)",
+                                          key="start-state-conditions-changed", index=idx, **pol))
         for dmp in list(REC["dumps"]):
             check_dump(dmp, res, dict(index=idx, file=os.path.basename(os.path.dirname(dmp["file"])) + "/" + os.path.basename(dmp["file"]), cache_solver=cache))
         if idx % 23 == 0 and REC["dumps"]:
